@@ -758,6 +758,39 @@ def expand_bool_locals(cond, body, depth=3):
     return rec(cond, 0)
 
 
+def text_with_locals(facts, rel, node, body, depth=2):
+    """normalised text of `node` in which every identifier that is an immutable local of `body`, bound exactly once by
+    `let x = <expr>;` (and not a parameter of a closure inside `node`), is replaced by `(<expr>)` - `let declared = &ast.package.0;
+    .. declared != expected` reads `(&ast.package.0)!=expected`"""
+    lets = {}
+    for l in find(body, "Local"):
+        pat = l["pat"]
+        if pat["k"] == "PType" and isinstance(pat.get("pat"), dict):
+            pat = pat["pat"]
+        if pat["k"] == "PIdent" and l.get("init") is not None and pat.get("sub") is None:
+            lets.setdefault(pat["name"], []).append(None if pat.get("mut") else l["init"])
+    own = set()
+    for c in find(node, "Closure"):
+        for p_ in c.get("inputs") or []:
+            own.update(pat_bindings(p_))
+    t = norm_ws(facts.text(rel, node["sp"]))
+    for _ in range(depth):
+        changed = False
+        for nm, inits in lets.items():
+            if nm in own or len(inits) != 1 or inits[0] is None:
+                continue
+            it = inits[0]
+            if it["k"] in ("Closure", "Match", "If", "Block", "Macro"):
+                continue
+            rep = "(" + norm_ws(facts.text(rel, it["sp"])) + ")"
+            t2 = re.sub(r"(?<![A-Za-z0-9_.])" + re.escape(nm) + r"(?![A-Za-z0-9_(])(?!!\()", lambda m_: rep, t)
+            if t2 != t:
+                t, changed = t2, True
+        if not changed:
+            break
+    return t
+
+
 def bool_atoms(e):
     k = e["k"]
     if k == "Paren":
